@@ -186,8 +186,61 @@ Record pytimer := mkPyTimer { pt_type : pyjobtype; pt_timing : pytiming; pt_next
 Definition set_pt_next (s : pytimer) (d : datetime) : pytimer := mkPyTimer (pt_type s) (pt_timing s) d (pt_skip s).
 Definition set_pt_timing (s : pytimer) (t : pytiming) : pytimer := mkPyTimer (pt_type s) t (pt_next s) (pt_skip s).
 Definition opt_is_some {A} (o : option A) : bool := match o with Some _ => true | None => false end.
-(* the attempt-related part of BaseJob *)
-Record pyjobstate := mkPyJobState { pj_mark_delete : bool; pj_max_attempts : Z; pj_attempts : Z }.
+Definition set_pt_type (s : pytimer) (k : pyjobtype) : pytimer := mkPyTimer k (pt_timing s) (pt_next s) (pt_skip s).
+Definition set_pt_skip (s : pytimer) (b : bool) : pytimer := mkPyTimer (pt_type s) (pt_timing s) (pt_next s) b.
+(* the object before __init__ has assigned its fields (every field is assigned before it is read) *)
+Definition blank_pytimer : pytimer := mkPyTimer JT_CYCLIC (PTdelta 0) (mkDt 0 None) false.
+
+(* sort key of a datetime inside one awareness class *)
+Definition all_same_awareness (l : list datetime) : bool :=
+  match l with
+  | [] => true
+  | d :: r => forallb (fun x => Bool.eqb (aware x) (aware d)) r
+  end.
+
+(* index of the first minimal element *)
+Fixpoint argmin_from (i best : nat) (bestv : Z) (l : list Z) : nat :=
+  match l with
+  | [] => best
+  | v :: r => if v <? bestv then argmin_from (S i) i v r else argmin_from (S i) best bestv r
+  end.
+Definition argmin (l : list Z) : nat :=
+  match l with [] => O | v :: r => argmin_from 1 O v r end.
+
+
+Fixpoint replace_nth {A} (n : nat) (l : list A) (x : A) : list A :=
+  match l, n with
+  | [], _ => []
+  | _ :: r, O => x :: r
+  | y :: r, S n' => y :: replace_nth n' r x
+  end.
+
+
+Definition py_nth (i : nat) (l : list pytimer) : pytimer := nth i l blank_pytimer.
+(* get_pending_timer (recognised by template): a dict in list order, sorted() by the timers' datetimes
+   is stable so the first minimal one wins; comparing naive with aware values raises TypeError (whenever
+   both kinds occur some comparison is mixed); [0] of an empty list raises IndexError.
+   The result is presented as the INDEX of the chosen timer. *)
+Definition py_pending_index (tms : list pytimer) : res nat :=
+  match tms with
+  | [] => Err IndexError
+  | _ => let ds := map pt_next tms in
+         if all_same_awareness ds then Ok (argmin (map utc ds)) else Err TypeError
+  end.
+
+(* the scheduling-related state of a BaseJob; __pending_timer is the element pj_pending of pj_timers *)
+Record pyjobstate := mkPyJobState {
+  pj_mark_delete : bool; pj_max_attempts : Z; pj_attempts : Z; pj_delay : bool; pj_skip_missing : bool;
+  pj_start : datetime; pj_stop : option datetime; pj_tzinfo : option Z; pj_timers : list pytimer; pj_pending : nat }.
+Definition set_pj_mark_delete (s : pyjobstate) (b : bool) : pyjobstate :=
+  mkPyJobState b (pj_max_attempts s) (pj_attempts s) (pj_delay s) (pj_skip_missing s) (pj_start s) (pj_stop s) (pj_tzinfo s)
+               (pj_timers s) (pj_pending s).
+Definition set_pj_timers (s : pyjobstate) (l : list pytimer) : pyjobstate :=
+  mkPyJobState (pj_mark_delete s) (pj_max_attempts s) (pj_attempts s) (pj_delay s) (pj_skip_missing s) (pj_start s) (pj_stop s)
+               (pj_tzinfo s) l (pj_pending s).
+Definition set_pj_pending (s : pyjobstate) (i : nat) : pyjobstate :=
+  mkPyJobState (pj_mark_delete s) (pj_max_attempts s) (pj_attempts s) (pj_delay s) (pj_skip_missing s) (pj_start s) (pj_stop s)
+               (pj_tzinfo s) (pj_timers s) i.
 
 (* ---- loops, sets and optionals as the function translator sees them -------------------- *)
 (* for x in l: body   where body only tests and raises *)
